@@ -80,8 +80,10 @@ def merge_process_traces(d, procs):
 
 
 def run_layout_cases(work, driver, props, cases, tag="main", budget_ms=2500, mem_mb=400, nshards=None,
-                     keep_all_cases=False, post_trace=None, procs=1):
-    """cases: list of case dicts (ids are assigned here). Returns Result."""
+                     keep_all_cases=False, post_trace=None, procs=1, preshard=False):
+    """cases: list of case dicts (ids are assigned here). Returns Result.  Every case is tagged with the shard (= process)
+    it ran in (`_sh`); with preshard=True the cases are put into the shards their `_sh` names, in list order, so that a
+    second pass gives every case the process history it had in the first."""
     res = Result()
     for i, c in enumerate(cases):
         c["case"] = i + 1
@@ -89,7 +91,14 @@ def run_layout_cases(work, driver, props, cases, tag="main", budget_ms=2500, mem
     if not cases:
         return res
     nshards = nshards or min(core.NCPU, max(1, len(cases) // 200))
-    shards = shard_groups(cases, nshards)
+    if preshard:
+        ks = sorted({c["_sh"] for c in cases})
+        shards = [[c for c in cases if c["_sh"] == k] for k in ks]
+    else:
+        shards = shard_groups(cases, nshards)
+        for k, sh in enumerate(shards):
+            for c in sh:
+                c["_sh"] = k
     byid = {c["case"]: c for c in cases}
     dirs = []
     for k, sh in enumerate(shards):
